@@ -1,10 +1,10 @@
 SPECIFICATION GSpec
-CONSTANTS Loops = {"while", "for", "dowhile", "whiledec", "rec", "mutual", "recfp", "recfunc", "reccb", "recother", "bigargs", "foreach"}
+CONSTANTS Loops = {"while", "for", "dowhile", "whiledec", "rec", "mutual", "recfp", "recfunc", "reccb", "recother", "bigargs", "bigcallother", "bigbound", "foreach"}
   Nests = {0, 1, 2, 3}
   Nexts = {"ret", "loop", "recurse"}
   Costs = {5000, 30000}
   Pads = {0, 1, 2, 3, 4, 5}
-  Ctors = {"arr_addeq_self", "arr_add_self", "arr_doubling", "str_addeq_self", "str_doubling", "map_addeq_self", "buf_addeq_self", "allocate", "arr_add", "arr_addeq", "explode", "keys", "values", "map_array", "arr_mult", "allocate_mapping", "map_add", "map_addeq", "map_insert", "map_mapping", "allocate_buffer", "buf_add", "str_add", "str_addeq", "repeat_string", "sprintf_pad", "implode", "replace_string", "str_intadd", "arr_range_assign", "unique_array", "filter", "sort", "read_file", "upper", "str_mult", "unique_mapping", "str_range_assign", "str_range_assign_v", "str_range_insert", "explode_chars", "filter_mapping"}
+  Ctors = {"arr_addeq_self", "arr_add_self", "arr_doubling", "str_addeq_self", "str_doubling", "map_addeq_self", "buf_addeq_self", "allocate", "arr_add", "arr_addeq", "explode", "keys", "values", "map_array", "arr_mult", "allocate_mapping", "map_add", "map_addeq", "map_insert", "map_mapping", "allocate_buffer", "buf_add", "str_add", "str_addeq", "repeat_string", "sprintf_pad", "implode", "replace_string", "str_intadd", "arr_range_assign", "unique_array", "filter", "sort", "read_file", "upper", "str_mult", "unique_mapping", "str_range_assign", "str_range_assign_v", "str_range_insert", "explode_chars", "filter_mapping", "replace_skip", "replace_skip2"}
   Sizes = {"lim-1", "lim", "lim+1", "2lim"}
   Sim = FALSE
 INVARIANT Emit
